@@ -1,6 +1,7 @@
 use crate::native_types::NativeType;
 use crate::CompilationError;
 use crate::Identifier;
+use derivative::Derivative;
 use itertools::Itertools;
 use std::collections::HashMap;
 use std::fmt::{Debug, Display, Formatter};
@@ -43,9 +44,27 @@ impl Display for CompoundKind {
     }
 }
 
-#[derive(Debug, Eq, PartialEq, Clone, Default)]
+#[derive(Eq, PartialEq, Clone, Default)]
 pub struct Bind {
     bound_generics: HashMap<Identifier, Arc<XType>>,
+}
+
+impl Debug for Bind {
+    fn fmt(&self, f: &mut Formatter<'_>) -> std::fmt::Result {
+        // a HashMap iterates in a per-process random order: print the entries sorted, so that
+        // messages that contain a type are reproducible
+        let mut entries = self
+            .bound_generics
+            .iter()
+            .map(|(k, v)| (format!("{k:?}"), v))
+            .collect::<Vec<_>>();
+        entries.sort_by(|a, b| a.0.cmp(&b.0));
+        let mut map = f.debug_struct("Bind");
+        for (k, v) in entries.iter() {
+            map.field(k, v);
+        }
+        map.finish()
+    }
 }
 
 impl Bind {
@@ -95,11 +114,14 @@ where
     }
 }
 
-#[derive(Clone, Debug, Eq, PartialEq)]
+#[derive(Clone, Derivative, Eq, PartialEq)]
+#[derivative(Debug)]
 pub struct XCompoundSpec {
     pub(crate) name: Identifier,
     pub(crate) generic_names: Vec<Identifier>,
     pub(crate) fields: Vec<XCompoundFieldSpec>,
+    // name -> position in `fields` (redundant with `fields`, and hash-ordered: kept out of the Debug output)
+    #[derivative(Debug = "ignore")]
     pub(crate) indices: HashMap<Identifier, usize>,
 }
 
